@@ -624,6 +624,10 @@ func (fr *Frame) evalPass(m0 *Mem) {
 				r := Or(fw...)
 				if len(r.Key()) > 1500 {
 					r = Atom(fmt.Sprintf("reach#%s#%d", fr.ID, b), types.Typ[types.Bool])
+					// keep what the immediate dominator already guarantees
+					if d := blk.Idom(); d != nil && fr.reach[d.Index] != nil {
+						r = And(fr.reach[d.Index], r)
+					}
 				}
 				fr.reach[b] = r
 			}
